@@ -31,7 +31,7 @@ ASSUMPTIONS = [
 REQUIRED_COUNTERS = ["histories_judged", "histories_read_committed_with_transactions", "generations_checked", "assignments_checked", "assigned_callbacks_checked",
                      "deliveries_checked", "periods_checked", "period_starts_checked", "barriers_checked",
                      "revocations_with_partitions", "rebalances_with_deliveries_in_flight", "subscription_changes",
-                     "kills_executed", "histories_pattern_subscription", "self_initiated_leaves_checked"]
+                     "kills_executed", "histories_pattern_subscription", "self_initiated_leaves_checked", "long_revoke_callbacks"]
 
 
 def prepare(tier, seed, scratch):
